@@ -75,7 +75,7 @@ harness(void) {
 
   if (g_lock_rc != LDB_OK) {
     VP_ASSERT(rc == g_lock_rc, "C20 lock failure returned");
-    VP_ASSERT(g_env_calls == 0 && g_exists_asked == 0 && g_t_vrecover == 0 && vp_listings == 0, "nothing inspected or touched without the lock");
+    VP_ASSERT(g_env_calls == 0 && g_exists_asked == 0 && g_t_vrecover == 0 && vp_listings == 0, "C20 nothing inspected or touched without the lock");
     VP_WITNESS("lock-failed");
     return;
   }
@@ -84,13 +84,13 @@ harness(void) {
 
   if (!g_exists && !create) {
     VP_ASSERT(rc == LDB_INVALID, "C20 missing db without create_if_missing: INVALID");
-    VP_ASSERT(g_env_calls == 0 && vp_listings == 0, "C20 ... without touching a file");
+    VP_ASSERT(g_env_calls == 0 && vp_listings == 0, "C20 ... and no MANIFEST, CURRENT, log or table was read, created or removed (only the directory and LOCK were made)");
     VP_WITNESS("missing-not-created");
     return;
   }
   if (g_exists && eie) {
     VP_ASSERT(rc == LDB_INVALID, "C20 existing db with error_if_exists: INVALID");
-    VP_ASSERT(g_env_calls == 0 && vp_listings == 0, "C20 ... without touching a file");
+    VP_ASSERT(g_env_calls == 0 && vp_listings == 0, "C20 ... and no MANIFEST, CURRENT, log or table was read, created or removed (only the directory and LOCK were made)");
     VP_WITNESS("exists-error-if-exists");
     return;
   }
